@@ -79,6 +79,7 @@ type checkCtx struct {
 	bounded   []map[string]interface{}
 	missing   []string
 	extraAssumptions []string
+	knownObls []string
 }
 
 func cmdCheck(args []string) {
@@ -316,6 +317,12 @@ func (cc *checkCtx) verifyOne(name string) {
 			continue
 		}
 		rep.Failed = append(rep.Failed, r.O.Name)
+		if kf := cc.knownFor(r.O.Name); kf != nil && kf.Except == "" {
+			// a recorded known finding is reported separately and not counted among the claimed obligations
+			cc.nObl--
+			rep.Obligations--
+			cc.knownObls = append(cc.knownObls, r.O.Name)
+		}
 		cc.handleFailure(x, fn, c, r)
 	}
 	if rep.Discharged == rep.Obligations {
@@ -465,6 +472,7 @@ func (cc *checkCtx) writeEvidence(wall float64, status string) {
 		"notes":                    keys(cc.notes),
 		"undecided":                cc.undecided,
 		"known_findings_seen":      cc.knownSeen,
+		"known_finding_obligations_not_counted": cc.knownObls,
 		"vacuity":                  cc.vacuity,
 		"bounded":                  cc.bounded,
 		"missing_obligations":      cc.missing,
